@@ -293,6 +293,23 @@ fn minimise(case: &Case, key: &Value, refs: &HashMap<String, (String, String)>, 
             break;
         }
     }
+    // 2b. threads left without operations
+    loop {
+        let nt = best.job["threads"].as_array().map(|a| a.len()).unwrap_or(0);
+        let empty = (0..nt).find(|t| best.job["threads"][*t].as_array().map(|a| a.is_empty()).unwrap_or(false));
+        match empty {
+            Some(t) if nt > 1 && attempts < 160 => {
+                let mut c = best.clone();
+                c.job["threads"].as_array_mut().unwrap().remove(t);
+                if still_fails(&c, &mut attempts).is_some() {
+                    best = c;
+                } else {
+                    break;
+                }
+            }
+            _ => break,
+        }
+    }
     // 3. fix the schedule as a script and drop context switches
     let nt = best.job["threads"].as_array().map(|a| a.len()).unwrap_or(0);
     if nt > 1 {
